@@ -122,7 +122,8 @@ pub fn exercise(tools: &Tools, sub: &str, x: &[u8], rank: u64, case: &dyn Fn() -
             guard!("signature_key_ids", p.signature_key_ids());
             // iteration over an uncompressed payload
             let comp = catch(|| m.get_payload_compressor()).ok().and_then(|r| r.ok());
-            if comp == Some(rpm::CompressionType::None) {
+            // (the vocabulary sweep's payloads are tiny: there the payload is iterated whatever the header says about its compression)
+            if comp == Some(rpm::CompressionType::None) || sub == "tag-vocabulary" {
                 guard!("files()", {
                     if let Ok(it) = p.files() {
                         let mut n = 0usize;
